@@ -444,6 +444,12 @@ def run_verus_unit(unit, width, results, key):
                 local[oid_prefix + ':canary'] = dict(status='undecided', reason='vacuity canary `ensures false` was accepted: prelude is contradictory',
                                                     engine='verus', unit=unit, width=width, label='P', name='canary__', desc='vacuity canary', fns=[], cached=False)
             continue
+        if short.startswith('canary_'):
+            # `requires <hypotheses of a contract or lemma> ensures false`: MUST fail, else the hypotheses are contradictory
+            if f['success']:
+                local[oid_prefix + ':' + short] = dict(status='undecided', reason='vacuity canary %s was accepted: the hypotheses it names are contradictory' % short,
+                                                       engine='verus', unit=unit, width=width, label='P', name=short, desc='vacuity canary', fns=[], cached=False)
+            continue
         if f.get('mode') == 'spec':
             continue
         oid = '%s:%s' % (oid_prefix, fname)
